@@ -572,10 +572,14 @@ func (ex *Exec) call(fn *ssa.Function, args []Value, fv []Value) Value {
 		// a failing initialiser expression makes that one global opaque, not the rest of the package
 		return ex.guardedInitCall(fn, args, fv)
 	}
-	if rep := ex.ld.replacement(fn); rep != nil {
+	if rep := ex.ld.replacement(fn); rep != nil && (rep.group == "" || ex.h.groups[rep.group]) {
+		ex.stubsSeen[rep.desc] = true
 		if rep.model != nil {
-			ex.stubsSeen[rep.desc] = true
 			return ex.call(rep.model, args, nil)
+		}
+		if rep.noop {
+			r, _ := inNoop(ex, fn, args)
+			return r
 		}
 	}
 	if h := ex.ld.intrinsic(fn); h != nil {
